@@ -133,7 +133,7 @@ impl Stats {
             return None;
         }
 
-        Some(self.downloaded.iter().map(|d| *d as u32).sum::<u32>() / self.downloaded.len() as u32)
+        Some(Self::mean_rate(&self.downloaded))
     }
 
     fn uploaded_rate(&self) -> Option<u32> {
@@ -141,7 +141,16 @@ impl Stats {
             return None;
         }
 
-        Some(self.uploaded.iter().map(|d| *d as u32).sum::<u32>() / self.uploaded.len() as u32)
+        Some(Self::mean_rate(&self.uploaded))
+    }
+
+    /// Mean of byte counters, saturating at `u32::MAX` (counters are not truncated, sum does
+    /// not overflow).
+    fn mean_rate(counters: &VecDeque<usize>) -> u32 {
+        let sum = counters
+            .iter()
+            .fold(0u64, |acc, d| acc.saturating_add(*d as u64));
+        std::cmp::min(sum / counters.len() as u64, u32::MAX as u64) as u32
     }
 
     fn unexpected_blocks(&mut self) -> usize {
